@@ -14,6 +14,10 @@
 #include <unistd.h>
 #include <sched.h>
 #include <errno.h>
+#include <signal.h>
+#include <ucontext.h>
+#include <sys/personality.h>
+#include <sys/prctl.h>
 
 namespace verif {
 
@@ -24,6 +28,9 @@ struct Th {
     TState st = T_RUNNABLE;
     const void* futex_addr = nullptr;
     uint64_t iter_epoch = 0;     // write epoch when this thread's current spin-loop iteration began
+    pthread_t handle{};          // threads created through verif_pthread_create
+    bool dynamic = false;
+    bool join_wait = false;      // parked in verif_pthread_join
     bool accessed = false;       // did an atomic access since it last parked on a spin point
 };
 struct Run {
@@ -35,7 +42,9 @@ struct Run {
     std::atomic<int> finished{0};
     std::atomic<int> dead{0};
     uint64_t write_epoch = 1;
+    size_t idle_rounds = 0;
 };
+size_t g_idle_round_limit = 3000;
 Run* g_run = nullptr;
 thread_local int t_self = -1;
 
@@ -61,21 +70,29 @@ void give_go(Th* t) {
 // (never returns if me is done).
 void reschedule(int me, bool me_done) {
     Run* r = g_run;
+    if (me_done) r->idle_rounds = 0;
+    if (me_done) for (auto* t : r->ths) if (t->st == T_SPIN && t->join_wait) { t->st = T_RUNNABLE; t->join_wait = false; }
     std::vector<int> en;
     for (size_t i = 0; i < r->ths.size(); ++i) if (r->ths[i]->st == T_RUNNABLE) en.push_back((int)i);
     if (en.empty()) {
-        bool any_live = false;
-        for (auto* t : r->ths) if (t->st != T_DONE) any_live = true;
+        bool any_live = false, any_spin = false;
+        for (auto* t : r->ths) { if (t->st != T_DONE) any_live = true; if (t->st == T_SPIN) any_spin = true; }
         if (!any_live) { r->finished.store(1); syscall(SYS_futex, (int*)&r->finished, FUTEX_WAKE_PRIVATE, 64, nullptr, nullptr, 0); return; }
-        // spinning threads can always re-check: if there are spinners but no runnable thread, nothing will
-        // ever change shared state again => deadlock / livelock
-        r->res.deadlock = true;
-        for (size_t i = 0; i < r->ths.size(); ++i) if (r->ths[i]->st != T_DONE) r->res.parked.push_back((int)i);
-        r->dead.store(1);
-        r->finished.store(1);
-        syscall(SYS_futex, (int*)&r->finished, FUTEX_WAKE_PRIVATE, 64, nullptr, nullptr, 0);
-        // park forever (the caller of run() will _exit)
-        for (;;) pause();
+        // Every live thread is parked.  Spin loops with local progress (failure counters, back-off thresholds that
+        // lead to a different action after N iterations) are not fixpoints after one clean iteration, so before
+        // declaring a deadlock let all spinners run again, up to `idle_round_limit` consecutive rounds in which
+        // nobody changed shared state.
+        if (any_spin && r->idle_rounds < g_idle_round_limit) {
+            r->idle_rounds++;
+            for (size_t i = 0; i < r->ths.size(); ++i) if (r->ths[i]->st == T_SPIN) { r->ths[i]->st = T_RUNNABLE; en.push_back((int)i); }
+        } else {
+            r->res.deadlock = true;
+            for (size_t i = 0; i < r->ths.size(); ++i) if (r->ths[i]->st != T_DONE) r->res.parked.push_back((int)i);
+            r->dead.store(1);
+            r->finished.store(1);
+            syscall(SYS_futex, (int*)&r->finished, FUTEX_WAKE_PRIVATE, 64, nullptr, nullptr, 0);
+            for (;;) pause();     // park forever (the caller of run() will _exit)
+        }
     }
     if (r->res.steps >= r->max_steps) {
         fprintf(stderr, "verif: step limit %zu exceeded\n", r->max_steps);
@@ -120,6 +137,7 @@ void post(int kind, const volatile void* addr, int order, uint64_t a, uint64_t b
     if (is_write(kind, ok, a, b)) {
         // a write may satisfy any spinner's condition: make them runnable again
         r->write_epoch++;
+        r->idle_rounds = 0;
         for (auto* t : r->ths) if (t->st == T_SPIN) t->st = T_RUNNABLE;
     }
     r->ths[t_self]->accessed = true;
@@ -145,6 +163,8 @@ static void spin_point(int kind) {
 }
 void pause_point() { spin_point(K_PAUSE); }
 void yield_point() { spin_point(K_YIELD); }
+
+void set_idle_round_limit(size_t n) { g_idle_round_limit = n; }
 
 void note(const char* tag, uint64_t a, uint64_t b) {
     if (!controlled()) return;
@@ -236,6 +256,47 @@ Result run(const std::vector<std::function<void()>>& bodies, Schedule& sch, size
     return r.res;
 }
 
+// --- determinism -----------------------------------------------------------------------------------------
+namespace {
+std::atomic<uint64_t> g_vtsc{1000000};
+std::atomic<uint64_t> g_vclock{1000000000ull};
+void tsc_trap(int, siginfo_t*, void* uc_) {
+    ucontext_t* uc = static_cast<ucontext_t*>(uc_);
+    unsigned char* ip = reinterpret_cast<unsigned char*>(uc->uc_mcontext.gregs[REG_RIP]);
+    if (ip[0] == 0x0F && ip[1] == 0x31) {                       // rdtsc
+        uint64_t v = g_vtsc.fetch_add(400) + 400;
+        uc->uc_mcontext.gregs[REG_RAX] = (long long)(v & 0xffffffffu);
+        uc->uc_mcontext.gregs[REG_RDX] = (long long)(v >> 32);
+        uc->uc_mcontext.gregs[REG_RIP] += 2;
+        return;
+    }
+    if (ip[0] == 0x0F && ip[1] == 0x01 && ip[2] == 0xF9) {      // rdtscp
+        uint64_t v = g_vtsc.fetch_add(400) + 400;
+        uc->uc_mcontext.gregs[REG_RAX] = (long long)(v & 0xffffffffu);
+        uc->uc_mcontext.gregs[REG_RDX] = (long long)(v >> 32);
+        uc->uc_mcontext.gregs[REG_RCX] = 0;
+        uc->uc_mcontext.gregs[REG_RIP] += 3;
+        return;
+    }
+    signal(SIGSEGV, SIG_DFL);                                    // a genuine fault: re-raise with default action
+}
+}
+uint64_t virtual_now_ns() { return g_vclock.fetch_add(100000) + 100000; }   // 100 us per reading
+
+void init_determinism(int argc, char** argv) {
+    (void)argc;
+    int pers = personality(0xffffffff);
+    if (pers != -1 && !(pers & ADDR_NO_RANDOMIZE) && !getenv("VERIF_NO_REEXEC")) {
+        personality(pers | ADDR_NO_RANDOMIZE);
+        setenv("VERIF_NO_REEXEC", "1", 1);
+        execv("/proc/self/exe", argv);
+    }
+    struct sigaction sa; memset(&sa, 0, sizeof sa);
+    sa.sa_sigaction = tsc_trap; sa.sa_flags = SA_SIGINFO | SA_NODEFER;
+    sigaction(SIGSEGV, &sa, nullptr);
+    prctl(PR_SET_TSC, PR_TSC_SIGSEGV, 0, 0, 0);
+}
+
 // --- names ---------------------------------------------------------------------------------------------
 void name_addr(const volatile void* addr, const std::string& name) { g_addr_names[(const void*)addr] = name; }
 void name_value(uint64_t v, const std::string& name) { g_value_names[v] = name; }
@@ -274,6 +335,62 @@ std::string format_event(const Event& e) {
 
 } // namespace verif
 
+// --- threads created by the code under test (e.g. the RML worker threads of libtbb) -----------------------------
+namespace {
+struct DynStart { verif::Th* th; int tid; void* (*fn)(void*); void* arg; };
+void* dyn_trampoline(void* p) {
+    using namespace verif;
+    DynStart* d = static_cast<DynStart*>(p);
+    t_self = d->tid;
+    wait_go(d->th);
+    if (g_run) g_run->res.log.push_back(Event{d->tid, K_START, 0, 1, nullptr, 0, 0, nullptr});
+    void* r = d->fn(d->arg);
+    if (g_run) {
+        g_run->res.log.push_back(Event{d->tid, K_END, 0, 1, nullptr, 0, 0, nullptr});
+        d->th->st = T_DONE;
+        int me = d->tid;
+        delete d;
+        reschedule(me, true);
+    }
+    t_self = -1;
+    return r;
+}
+}
+extern "C" int verif_pthread_create(pthread_t* h, const pthread_attr_t* attr, void* (*fn)(void*), void* arg) {
+    using namespace verif;
+    if (!controlled()) return pthread_create(h, attr, fn, arg);
+    Run* r = g_run;
+    reschedule(t_self, false);                       // scheduling point
+    Th* th = new Th();
+    th->dynamic = true;
+    int tid = (int)r->ths.size();
+    r->ths.push_back(th);
+    DynStart* d = new DynStart{th, tid, fn, arg};
+    int rc = pthread_create(h, attr, dyn_trampoline, d);
+    if (rc != 0) { th->st = T_DONE; delete d; return rc; }
+    th->handle = *h;
+    r->res.log.push_back(Event{t_self, K_NOTE, 0, 1, nullptr, (uint64_t)tid, 0, "thread_create"});
+    return 0;
+}
+extern "C" int verif_pthread_join(pthread_t h, void** ret) {
+    using namespace verif;
+    if (controlled()) {
+        Run* r = g_run;
+        Th* target = nullptr;
+        for (auto* t : r->ths) if (t->dynamic && pthread_equal(t->handle, h)) target = t;
+        if (target) {
+            // wait (as a parked spinner) until the target has finished under the scheduler
+            while (target->st != T_DONE) {
+                Th* me = r->ths[t_self];
+                me->st = T_SPIN;
+                me->join_wait = true;
+                reschedule(t_self, false);
+            }
+        }
+    }
+    return pthread_join(h, ret);
+}
+
 // --- futex emulation: TBB's binary_semaphore calls ::syscall(SYS_futex, addr, op, val, ...) -----------------
 extern "C" long verif_syscall(long nr, ...) {
     va_list ap; va_start(ap, nr);
@@ -302,7 +419,7 @@ extern "C" long verif_syscall(long nr, ...) {
         int n = 0;
         for (size_t i = 0; i < r->ths.size() && n < (int)a3; ++i) {
             Th* t = r->ths[i];
-            if (t->st == T_FUTEX && t->futex_addr == addr) { t->st = T_RUNNABLE; t->futex_addr = nullptr; ++n; }
+            if (t->st == T_FUTEX && t->futex_addr == addr) { t->st = T_RUNNABLE; t->futex_addr = nullptr; ++n; r->idle_rounds = 0; }
         }
         r->res.log.push_back(Event{t_self, K_FWAKE, 5, 1, addr, (uint64_t)n, (uint64_t)a3, nullptr});
         return n;
